@@ -93,6 +93,11 @@ struct State {
     stall_until: Option<tokio::time::Instant>,
     log: Vec<LogEntry>,
     t0: tokio::time::Instant,
+    shutdown_fails_when_broken: bool,
+    shutdown_fails: bool,
+    /// (dir, at, bytes): when `at` bytes have been written in `dir`, `bytes` appear in the OTHER direction
+    inject: Option<(usize, usize, Vec<u8>)>,
+    inject_fired: bool,
 }
 
 #[derive(Clone)]
@@ -121,6 +126,10 @@ impl Pipe {
             stall_until: None,
             log: vec![],
             t0: tokio::time::Instant::now(),
+            shutdown_fails_when_broken: false,
+            shutdown_fails: false,
+            inject: None,
+            inject_fired: false,
         }));
         (
             Pipe { st: st.clone() },
@@ -130,6 +139,25 @@ impl Pipe {
             },
             End { st, side: 1 },
         )
+    }
+    /// make `poll_shutdown` fail with NotConnected once the connection is broken (as TCP does after a reset)
+    pub fn set_shutdown_fails_when_broken(&self, on: bool) {
+        self.st.lock().unwrap().shutdown_fails_when_broken = on;
+    }
+    /// make `poll_shutdown` fail with NotConnected from now on while reads and writes still work: the peer went
+    /// away right behind the last bytes it sent, the local socket buffer still accepts what is written
+    pub fn set_shutdown_fails(&self, on: bool) {
+        self.st.lock().unwrap().shutdown_fails = on;
+    }
+    /// at the very moment `at` bytes have been written in direction `dir`, the other side writes `bytes`
+    /// (lets a scripted peer act between two frames of one burst of the library's output)
+    pub fn set_inject(&self, dir: usize, at: usize, bytes: Vec<u8>) {
+        let mut g = self.st.lock().unwrap();
+        g.inject = Some((dir, at, bytes));
+        g.inject_fired = false;
+    }
+    pub fn inject_fired(&self) -> bool {
+        self.st.lock().unwrap().inject_fired
     }
     pub fn set_fault(&self, f: Fault) {
         self.st.lock().unwrap().fault = Some(f);
@@ -258,6 +286,11 @@ fn write_into(g: &mut State, side: usize, bytes: &[u8]) -> usize {
     if let Some(m) = fire {
         g.fault = None;
         trigger(g, m);
+    }
+    if matches!(&g.inject, Some((d, at, _)) if *d == side && g.dirs[side].written >= *at) {
+        let (_, _, b) = g.inject.take().unwrap();
+        g.inject_fired = true;
+        write_into(g, 1 - side, &b);
     }
     // a write that hit the cut reports the whole buffer as accepted (the bytes are lost in flight)
     bytes.len()
@@ -390,6 +423,11 @@ impl AsyncWrite for End {
     fn poll_shutdown(self: Pin<&mut Self>, _cx: &mut Context<'_>) -> Poll<io::Result<()>> {
         let mut g = self.st.lock().unwrap();
         let wr = self.side;
+        // like a TCP socket after the peer reset / went away: shutting down the write half fails
+        if g.shutdown_fails || (matches!(g.broken, Broken::Reset | Broken::Eof) && g.shutdown_fails_when_broken) {
+            g.dirs[wr].closed = true;
+            return Poll::Ready(Err(io::ErrorKind::NotConnected.into()));
+        }
         g.dirs[wr].closed = true;
         if let Some(w) = g.dirs[wr].reader_waker.take() {
             w.wake();
